@@ -7,6 +7,7 @@ import OsuProofs.StepEquivariant
 import OsuProofs.NewtonMirror
 import OsuProofs.MemRotation
 import OsuProofs.CholeskyNewton
+import OsuProofs.CholeskyPD
 /-
 C06 — estimators reproduce the input moments; solvers agree; the Jacobian is the derivative of
 the constraint function; output rotates with input.
@@ -343,6 +344,33 @@ theorem cholesky_newton_step_exact (lam delta : List ℝ) (T : List (List ℝ)) 
     (h : cholSolve (jacobian lam delta T) [g0, g1, g2, g3] = some x) :
     x.length = 4 ∧ Matrix.mulVec (toMat (jacobian lam delta T)) (toVec x) = toVec [g0, g1, g2, g3] :=
   cholSolve_jacobian_exact lam delta T g0 g1 g2 g3 x h
+
+/-- **total correctness on symmetric positive definite systems**: if `vᵀ A v > 0` for every `v ≠ 0`
+then no pivot of the factorisation is non-positive, a vector is returned, and it solves the system -/
+theorem cholesky_total_on_spd (a00 a10 a11 a20 a21 a22 a30 a31 a32 a33 b0 b1 b2 b3 : ℝ)
+    (hPD : PosDef4 a00 a10 a11 a20 a21 a22 a30 a31 a32 a33) :
+    ∃ x0 x1 x2 x3 : ℝ,
+      cholSolve [[a00, a10, a20, a30], [a10, a11, a21, a31], [a20, a21, a22, a32], [a30, a31, a32, a33]]
+        [b0, b1, b2, b3] = some [x0, x1, x2, x3] ∧
+      a00 * x0 + a10 * x1 + a20 * x2 + a30 * x3 = b0 ∧
+      a10 * x0 + a11 * x1 + a21 * x2 + a31 * x3 = b1 ∧
+      a20 * x0 + a21 * x1 + a22 * x2 + a32 * x3 = b2 ∧
+      a30 * x0 + a31 * x1 + a32 * x2 + a33 * x3 = b3 := by
+  obtain ⟨x, hx⟩ := cholSolve4_succeeds a00 a10 a11 a20 a21 a22 a30 a31 a32 a33 b0 b1 b2 b3 hPD
+  obtain ⟨x0, x1, x2, x3, rfl, h0, h1, h2, h3⟩ := cholSolve4_solves _ _ _ _ _ _ _ _ _ _ _ _ _ _ x hx
+  exact ⟨x0, x1, x2, x3, hx, h0, h1, h2, h3⟩
+
+/-- positive definite matrices exist: the identity -/
+example : PosDef4 1 0 1 0 0 1 0 0 0 1 := by
+  intro v0 v1 v2 v3 h
+  simp only [quad4]
+  have : 0 < v0 * v0 + v1 * v1 + v2 * v2 + v3 * v3 := by
+    rcases h with h | h | h | h
+    · have := mul_self_pos.2 h; nlinarith [mul_self_nonneg v1, mul_self_nonneg v2, mul_self_nonneg v3]
+    · have := mul_self_pos.2 h; nlinarith [mul_self_nonneg v0, mul_self_nonneg v2, mul_self_nonneg v3]
+    · have := mul_self_pos.2 h; nlinarith [mul_self_nonneg v0, mul_self_nonneg v1, mul_self_nonneg v3]
+    · have := mul_self_pos.2 h; nlinarith [mul_self_nonneg v0, mul_self_nonneg v1, mul_self_nonneg v2]
+  nlinarith
 
 /-- the hypothesis is met: the identity matrix is factorised and the system solved -/
 example : cholSolve [[1, 0, 0, 0], [0, 1, 0, 0], [0, 0, 1, 0], [0, 0, 0, (1 : ℝ)]] [1, 2, 3, 4] = some [1, 2, 3, 4] := by
